@@ -11,6 +11,7 @@
 //!   q n=<node> ent=<i> [alias=<name>]   node 0 is the root selection
 //!   qs n=<node> key=<name> f=<j|id>
 //!   qe n=<node> key=<name> f=<j> child=<m>
+//!   qj n=<node> key=<name> f=<j> path=<k/m:1|@2|$>          json selector on a Json field (`key: f<j>->$.k.m[1]`)
 //!   qg n=<node> key=<name> fn=<count|min|max> f=<j>      aggregate (grouped by the scalar selections of the node)
 //!   qf n=<node> name=<name> sel=<0|1> f=<j> op=<eq|ne|lt|le|gt|ge> v=<Val> [var=1] [ref=1]
 //!        (ref=1: `= null` / `!= null` on a reference field; sel=1 with an aggregate alias: a having-filter)
@@ -43,6 +44,7 @@ pub struct Node {
     pub alias: Option<String>,
     pub sels: Vec<SelItem>,
     pub filters: Vec<(String, bool, usize, String, Val, bool)>, // name, sel, fld, op, value, var
+    pub jfilters: Vec<(usize, String, String, Val)>,            // field, path spec, op, value
     pub orders: Vec<(String, bool, usize, bool)>,               // name, sel, fld, desc
     pub first: u64,
     pub skip: u64,
@@ -57,6 +59,7 @@ pub enum SelItem {
     Id(String),
     Sub(String, usize, usize), // key, field, child node
     Agg(String, String, usize), // key, count|min|max, field
+    Json(String, usize, String), // key, field, path spec
 }
 
 #[derive(Default)]
@@ -84,6 +87,7 @@ fn type_text(c: &Case, f: &FieldDef, upgraded: bool) -> String {
         'I' => "Integer".to_string(),
         'S' => "String".to_string(),
         'B' => "Boolean".to_string(),
+        'J' => "Json".to_string(),
         'R' => ent_name(c, f.to),
         _ => format!("[{}]", ent_name(c, f.to)),
     };
@@ -148,6 +152,24 @@ fn parse_pairs(s: &str) -> Option<Vec<(usize, String)>> {
     Some(v)
 }
 
+/// `k/m:1/o` -> `$.k.m[1].o`; `@2` -> `2`; `$` -> `$`
+fn selector_text(spec: &str) -> Option<String> {
+    if spec == "$" {
+        return Some("$".into());
+    }
+    if let Some(i) = spec.strip_prefix('@') {
+        return i.parse::<u64>().ok().map(|x| x.to_string());
+    }
+    let mut s = String::from("$");
+    for seg in spec.split('/') {
+        match seg.split_once(':') {
+            Some((k, i)) => s.push_str(&format!(".{}[{}]", k, i.parse::<u64>().ok()?)),
+            None => s.push_str(&format!(".{}", seg)),
+        }
+    }
+    Some(s)
+}
+
 fn op_text(op: &str) -> Option<&'static str> {
     Some(match op {
         "eq" => "=",
@@ -174,6 +196,9 @@ impl Case {
                 lit(v)
             };
             params.push(format!("{} {} {}", name, op_text(op)?, x));
+        }
+        for (f, spec, op, v) in &node.jfilters {
+            params.push(format!("f{}->{} {} {}", f, selector_text(spec)?, op_text(op)?, lit(v)));
         }
         if !node.orders.is_empty() {
             let os: Vec<String> = node.orders.iter().map(|(name, _, _, desc)| format!("{} {}", name, if *desc { "desc" } else { "asc" })).collect();
@@ -206,6 +231,7 @@ impl Case {
                     fields.push(if *key == fname { fname } else { format!("{}: {}", key, fname) });
                 }
                 SelItem::Id(key) => fields.push(if key == "id" { "id".into() } else { format!("{}: id", key) }),
+                SelItem::Json(key, f, spec) => fields.push(format!("{}: f{}->{}", key, f, selector_text(spec)?)),
                 SelItem::Agg(key, fun, f) => fields.push(if fun == "count" { format!("{}: count()", key) } else { format!("{}: {}(f{})", key, fun, f) }),
                 SelItem::Sub(key, f, child) => {
                     fields.push(self.node_text(*child, Some((key, *f)), p, pc, None)?);
@@ -226,6 +252,14 @@ impl Case {
         Some(format!("{} {} {{ {} }}", head, ps, fields.join(" ")))
     }
 
+    fn canon_json(&self, j: &J) -> String {
+        match j {
+            J::Obj(fs) => format!("J{{{}}}", fs.iter().map(|(k, v)| format!("{}={}", k, self.canon_json(v))).collect::<Vec<_>>().join(";")),
+            J::Arr(l) => format!("A[{}]", l.iter().map(|v| self.canon_json(v)).collect::<Vec<_>>().join(",")),
+            x => self.canon_val(x),
+        }
+    }
+
     fn canon_val(&self, j: &J) -> String {
         match j {
             J::Null => "N".into(),
@@ -235,7 +269,7 @@ impl Case {
                 Err(_) => format!("F{}", n),
             },
             J::Str(s) => format!("S{}", s.chars().map(|c| (c as u32).to_string()).collect::<Vec<_>>().join(".")),
-            _ => "?".into(),
+            J::Obj(_) | J::Arr(_) => self.canon_json(j),
         }
     }
 
@@ -249,6 +283,9 @@ impl Case {
             match s {
                 SelItem::Scalar(key, _) | SelItem::Agg(key, _, _) => {
                     parts.push(format!("{}={}", key, row.get(key).map(|x| self.canon_val(x)).unwrap_or("absent".into())));
+                }
+                SelItem::Json(key, _, _) => {
+                    parts.push(format!("{}={}", key, row.get(key).map(|x| self.canon_json(x)).unwrap_or("absent".into())));
                 }
                 SelItem::Id(key) => {
                     let v = match row.get(key) {
@@ -355,7 +392,7 @@ pub fn step(c: &mut Case, kind: &str, kv: &HashMap<String, String>, stats: &mut 
                 (Some(e), Some(k), Some(ty), Some(md)) if ty.len() == 1 && md.len() == 1 => (e, k, ty.chars().next().unwrap(), md.chars().next().unwrap()),
                 _ => return "bad-op".into(),
             };
-            if e >= c.ents.len() || k != c.ents[e].len() || !"ISBRA".contains(ty) || !"rnd".contains(md) {
+            if e >= c.ents.len() || k != c.ents[e].len() || !"ISBJRA".contains(ty) || !"rnd".contains(md) {
                 return "bad-op".into();
             }
             let dv = match kv.get("dv") {
@@ -416,8 +453,20 @@ pub fn step(c: &mut Case, kind: &str, kv: &HashMap<String, String>, stats: &mut 
                 Some(v) => v,
                 None => return "bad-op".into(),
             };
+            let jsons = match parse_pairs(kv.get("j").map(|s| s.as_str()).unwrap_or("")) {
+                Some(v) => v,
+                None => return "bad-op".into(),
+            };
             let mut p = Parameters::new();
             let mut parts: Vec<String> = vec![];
+            for (j, x) in &jsons {
+                let txt = match dec(x) {
+                    Some(t) => t,
+                    None => return "bad-op".into(),
+                };
+                p.add(&format!("j{}", j), txt).unwrap();
+                parts.push(format!("f{}:$j{}", j, j));
+            }
             for (j, x) in &vals {
                 let v = match Val::parse(x) {
                     Some(v) => v,
@@ -505,6 +554,13 @@ pub fn step(c: &mut Case, kind: &str, kv: &HashMap<String, String>, stats: &mut 
             }
             _ => "bad-op".into(),
         },
+        "qj" => match (num("n"), kv.get("key"), num("f"), kv.get("path")) {
+            (Some(n), Some(key), Some(f), Some(path)) if c.nodes.contains_key(&n) && selector_text(path).is_some() => {
+                c.nodes.get_mut(&n).unwrap().sels.push(SelItem::Json(key.clone(), f, path.clone()));
+                "ok".into()
+            }
+            _ => "bad-op".into(),
+        },
         "qg" => match (num("n"), kv.get("key"), kv.get("fn"), num("f")) {
             (Some(n), Some(key), Some(fun), Some(f)) if c.nodes.contains_key(&n) && ["count", "min", "max"].contains(&fun.as_str()) => {
                 c.nodes.get_mut(&n).unwrap().sels.push(SelItem::Agg(key.clone(), fun.clone(), f));
@@ -520,6 +576,14 @@ pub fn step(c: &mut Case, kind: &str, kv: &HashMap<String, String>, stats: &mut 
             _ => "bad-op".into(),
         },
         "qf" => match (num("n"), kv.get("name"), kv.get("sel"), num("f"), kv.get("op"), kv.get("v").and_then(|x| Val::parse(x))) {
+            (Some(n), Some(_), Some(_), Some(f), Some(op), Some(v)) if c.nodes.contains_key(&n) && op_text(op).is_some() && kv.contains_key("jpath") => {
+                let spec = kv.get("jpath").unwrap();
+                if selector_text(spec).is_none() {
+                    return "bad-op".into();
+                }
+                c.nodes.get_mut(&n).unwrap().jfilters.push((f, spec.clone(), op.clone(), v));
+                "ok".into()
+            }
             (Some(n), Some(name), Some(sel), Some(f), Some(op), Some(v)) if c.nodes.contains_key(&n) && op_text(op).is_some() => {
                 c.nodes.get_mut(&n).unwrap().filters.push((name.clone(), sel == "1", f, op.clone(), v, kv.get("var").map(|x| x == "1").unwrap_or(false)));
                 "ok".into()
